@@ -72,16 +72,21 @@ def main():
     ap.add_argument("--jobs", type=int, default=6)
     ap.add_argument("--keep", action="store_true")
     ap.add_argument("--json")
+    ap.add_argument("--repo", default="/repo")
+    ap.add_argument("--quiet", action="store_true")
     a = ap.parse_args()
     ms = [m for m in MUTANTS if (not a.prop or a.prop in m["props"]) and (not a.id or a.id == m["id"])]
-    subprocess.run(["bash", "-c", "cd %s/checker && go build -o ../bin/c4echeck ." % VERIF], check=True, env=ENV)
+    if not os.path.exists(os.path.join(VERIF, "bin", "c4echeck")):
+        subprocess.run(["bash", "-c", "cd %s/checker && go build -o ../bin/c4echeck ." % VERIF], check=True, env=ENV)
     results = []
     with concurrent.futures.ThreadPoolExecutor(max_workers=a.jobs) as ex:
-        for r in ex.map(lambda m: run_one(m, a.keep), ms):
+        for r in ex.map(lambda m: run_one(m, a.keep, a.repo), ms):
             results.append(r)
-            print("%-8s %-40s %s" % (r["status"], r["id"], r.get("why", "")[:300]))
+            if not a.quiet or r["status"] in ("FAIL", "invalid"):
+                print("%-8s %-40s %s" % (r["status"], r["id"], r.get("why", "")[:300]))
     bad = [r for r in results if r["status"] in ("FAIL", "invalid")]
-    print("variants: %d ok, %d FAIL, %d invalid, %d skipped" % (
+    if not a.quiet:
+      print("variants: %d ok, %d FAIL, %d invalid, %d skipped" % (
         sum(r["status"] == "ok" for r in results), sum(r["status"] == "FAIL" for r in results),
         sum(r["status"] == "invalid" for r in results), sum(r["status"] == "skipped" for r in results)))
     if a.json:
